@@ -109,10 +109,20 @@ func min(a, b int) int {
 	return b
 }
 
+// capsAt is what an accepted EHLO advertises outside / inside TLS.
+func (c *Case) capsAt(inTLS bool) []string {
+	if inTLS && (c.TLS == 'O' || c.TLS == 'M') {
+		return c.CapsTLS
+	}
+	return c.Caps
+}
+
 // ---------- C04: the dialogue stays legal and in step ----------
 
 func legalClass(why string) string {
 	switch {
+	case strings.Contains(why, "STARTTLS"):
+		return "starttls-illegal"
 	case strings.Contains(why, "nested MAIL"):
 		return "nested-mail"
 	case strings.Contains(why, "RCPT without"):
@@ -147,9 +157,9 @@ func OracleC04(c *Case, r *Result) []Finding {
 			out = append(out, Finding{legalClass(e.Why), fmt.Sprintf("%q: %s", e.Line, e.Why)})
 		}
 		if e.Verb == "EHLO" && e.Accepted {
-			ext8 = hasCap(c.Caps, "8BITMIME")
+			ext8 = hasCap(c.capsAt(e.TLS), "8BITMIME")
 		}
-		if e.Verb == "HELO" && e.Accepted {
+		if (e.Verb == "HELO" && e.Accepted) || (e.Verb == "STARTTLS" && e.Code == 220) {
 			ext8 = false
 		}
 		if e.Verb == "MAIL" && !ext8 {
@@ -232,9 +242,9 @@ func OracleC20(c *Case, r *Result) []Finding {
 	esc := false
 	for _, e := range r.Trace {
 		if e.Verb == "EHLO" && e.Accepted {
-			esc = hasCap(c.Caps, "ENHANCEDSTATUSCODES")
+			esc = hasCap(c.capsAt(e.TLS), "ENHANCEDSTATUSCODES")
 		}
-		if e.Verb == "HELO" && e.Accepted {
+		if (e.Verb == "HELO" && e.Accepted) || (e.Verb == "STARTTLS" && e.Code == 220) {
 			esc = false
 		}
 	}
